@@ -32,8 +32,9 @@ ASSUMPTIONS = [
     "with A clear (the library keys the block layout on the A bit); mixed combinations are not generated",
     "payloads that need more than 127 blocks cannot be announced in the 7-bit blocks-to-follow field: not generated, "
     "counted under excluded_by_construction (rate 1/2 confirmed > 1266 octets)",
-    "SAP UDP/IP header compression is not generated here: the receiver decodes such payloads as a compressed header for a "
-    "diagnostic print; that path is exercised by C08",
+    "SAP values generated: short data, IP packet data, proprietary, ARP, TCP/IP and UDP/IP header compression (with the "
+    "last one the receiver additionally decodes the payload as a compressed header for a diagnostic print - arbitrary "
+    "payload bytes must not make that fail; DESIGN.md left this SAP to C08 while the crash was open, it is fixed now)",
     "CRC-32 reference: remainder of M(x)*x^32 mod 0x104C11DB7, zero initial value, no inversion, message = octet pairs "
     "swapped, MSB first, result stored least-significant octet first - derived from crc32.py's docstring/ETSI B.3.9 and "
     "confirmed on the 3 captured vectors of okdmr/tests/dmrlib/etsi/crc/test_crc32.py (computed with vp/refs/gf2.py, "
@@ -42,7 +43,7 @@ ASSUMPTIONS = [
     "pad octets are only counted (announced pad = received octets - payload octets); their value enters the CRC-32 clause",
 ]
 
-SAPS = ["ShortData", "IP_PacketData", "Proprietary", "ARP", "TCP_IP_compression"]
+SAPS = ["ShortData", "IP_PacketData", "Proprietary", "ARP", "TCP_IP_compression", "UDP_IP_compression", "UDP_IP_compression"]
 MAX_LEN = 1500
 
 
